@@ -38,6 +38,29 @@ fn text(rng: &mut Rng,len: usize) -> String {
 
 pub fn dispatch(toks: &[&str]) -> String {
     match toks[0] {
+        "recpack" => {
+            // recpack id fs rl num:hextext,... : the records packed into a file image; chunks (index:bytes) and end of file
+            let rl = num(toks[3]) as usize;
+            let mut recs = Records::new(rl);
+            if toks[4]!="-" {
+                for p in toks[4].split(',') {
+                    let mut it = p.split(':');
+                    let n: usize = it.next().unwrap().parse().unwrap();
+                    let t = String::from_utf8_lossy(&unhex(it.next().unwrap_or(""))).to_string();
+                    recs.add_record(n,&t);
+                }
+            }
+            let mut f = match toks[2] { "dos3x" => a2kit::fs::dos3x::new_fimg(256,"TEST"), _ => a2kit::fs::prodos::new_fimg(512,false,"TEST") }.expect("fimg");
+            match f.pack_rec(&recs) {
+                Err(_) => "refused".to_string(),
+                Ok(()) => {
+                    let mut keys: Vec<usize> = f.chunks.keys().cloned().collect();
+                    keys.sort();
+                    let parts: Vec<String> = keys.iter().map(|k| format!("{}:{}",k,tohex(&f.chunks[k]))).collect();
+                    format!("ok {} eof={}",parts.join("|"),f.get_eof())
+                }
+            }
+        },
         "txtenc" | "txtdec" => {
             // txtenc id fs hextext / txtdec id fs hexbytes : the flat text converters with the terminator their packer uses
             use a2kit::fs::TextConversion;
